@@ -11,7 +11,7 @@ package oauth
 //
 //	ops:  ["V", id]  ValidateJWT(token id)      ["R", jti]  tokens.Blacklist(jti)
 //	      ["T", secs] advance the clock         ["X", id]   evict token id from the JWT result cache
-//	      ["P"]       purge the JWT result cache
+//	      ["P"]       purge the JWT result cache  ["K", i]    the IdP publishes JWKS document docs[i] (key rotation)
 
 import (
 	"bytes"
@@ -55,13 +55,21 @@ type c22Token struct {
 	Client string   `json:"client"`
 }
 
+type c22JWK struct {
+	Kid string `json:"kid"`
+	Mat string `json:"mat"` // name of the key material, "oct" for a symmetric-key entry
+	Use string `json:"use"`
+}
+
 type c22History struct {
-	ID     int             `json:"id"`
-	Iss    string          `json:"iss"`
-	Aud    string          `json:"aud"`
-	TTL    string          `json:"ttl"`
-	Tokens []c22Token      `json:"tokens"`
-	Ops    [][]interface{} `json:"ops"`
+	ID      int             `json:"id"`
+	Iss     string          `json:"iss"`
+	Aud     string          `json:"aud"`
+	TTL     string          `json:"ttl"`
+	JWKSTTL int64           `json:"jwks_ttl"` // seconds
+	Docs    [][]c22JWK      `json:"docs"`     // JWKS documents; docs[0] is served at the start, ["K", i] publishes docs[i]
+	Tokens  []c22Token      `json:"tokens"`
+	Ops     [][]interface{} `json:"ops"`
 }
 
 type c22Result struct {
@@ -94,7 +102,7 @@ type c22Keys struct {
 
 func c22B64(b []byte) string { return base64.RawURLEncoding.EncodeToString(b) }
 
-func c22MakeKeys(t *testing.T) (*c22Keys, []byte) {
+func c22MakeKeys(t *testing.T) *c22Keys {
 	k := &c22Keys{rsa: map[string]*rsa.PrivateKey{}, ec: map[string]*ecdsa.PrivateKey{}}
 
 	for _, n := range []string{"k-rsa", "x-rsa", "k-enc"} {
@@ -106,7 +114,7 @@ func c22MakeKeys(t *testing.T) (*c22Keys, []byte) {
 		k.rsa[n] = key
 	}
 
-	for _, n := range []string{"k-ec", "x-ec"} {
+	for _, n := range []string{"k-ec", "x-ec", "e3"} {
 		key, err := ecdsa.GenerateKey(elliptic.P256(), rand.Reader)
 		if err != nil {
 			t.Fatal(err)
@@ -117,25 +125,32 @@ func c22MakeKeys(t *testing.T) (*c22Keys, []byte) {
 
 	_, k.ed, _ = ed25519.GenerateKey(rand.Reader)
 
-	rsaJWK := func(n, use string) map[string]string {
-		pub := k.rsa[n].PublicKey
+	return k
+}
 
-		return map[string]string{"kid": n, "kty": "RSA", "use": use, "alg": "RS256",
-			"n": c22B64(pub.N.Bytes()), "e": c22B64(big.NewInt(int64(pub.E)).Bytes())}
+// c22Doc renders one JWKS document: every entry publishes the named key material under the given kid.
+func c22Doc(k *c22Keys, doc []c22JWK) []byte {
+	keys := []map[string]string{}
+
+	for _, e := range doc {
+		switch {
+		case e.Mat == "oct":
+			keys = append(keys, map[string]string{"kid": e.Kid, "kty": "oct", "use": e.Use, "alg": "HS256"})
+		case k.rsa[e.Mat] != nil:
+			pub := k.rsa[e.Mat].PublicKey
+			keys = append(keys, map[string]string{"kid": e.Kid, "kty": "RSA", "use": e.Use, "alg": "RS256",
+				"n": c22B64(pub.N.Bytes()), "e": c22B64(big.NewInt(int64(pub.E)).Bytes())})
+		case k.ec[e.Mat] != nil:
+			pub := k.ec[e.Mat].PublicKey
+			size := (pub.Curve.Params().BitSize + 7) / 8
+			keys = append(keys, map[string]string{"kid": e.Kid, "kty": "EC", "use": e.Use, "alg": "ES256", "crv": "P-256",
+				"x": c22B64(pub.X.FillBytes(make([]byte, size))), "y": c22B64(pub.Y.FillBytes(make([]byte, size)))})
+		}
 	}
 
-	pub := k.ec["k-ec"].PublicKey
-	size := (pub.Curve.Params().BitSize + 7) / 8
-	doc := map[string]any{"keys": []map[string]string{
-		rsaJWK("k-enc", "enc"), // must be skipped: not a signing key
-		rsaJWK("k-rsa", "sig"),
-		{"kid": "k-ec", "kty": "EC", "use": "sig", "alg": "ES256", "crv": "P-256",
-			"x": c22B64(pub.X.FillBytes(make([]byte, size))), "y": c22B64(pub.Y.FillBytes(make([]byte, size)))},
-		{"kid": "k-oct", "kty": "oct", "use": "sig", "alg": "HS256"},
-	}}
-	b, _ := json.Marshal(doc)
+	b, _ := json.Marshal(map[string]any{"keys": keys})
 
-	return k, b
+	return b
 }
 
 func c22Sign(k *c22Keys, d c22Token, start int64) (string, error) {
@@ -243,8 +258,8 @@ func TestVerifC22(t *testing.T) {
 		t.Fatal(err)
 	}
 
-	keys, jwks := c22MakeKeys(t)
-	rt := &c22RT{body: jwks}
+	keys := c22MakeKeys(t)
+	rt := &c22RT{}
 	savedTransport := idpClient.Transport
 	idpClient.Transport = rt
 
@@ -269,15 +284,18 @@ func TestVerifC22(t *testing.T) {
 			start := time.Now().Unix()
 			res.Start = start
 			rt.fetches = 0
+			rt.body = c22Doc(keys, h.Docs[0])
+
+			jwksTTL := time.Duration(h.JWKSTTL) * time.Second
 
 			resetJWKSCache()
 			resetMissRefresh()
-			setJWKSCacheTTL(time.Hour)
+			setJWKSCacheTTL(jwksTTL)
 
 			globalConfigMu.Lock()
 			savedCfg, savedURL := globalConfig, jwksURL
 			globalConfig = rsConfig{Provider: h.Iss, Audience: h.Aud, UserClaim: "sub", PermissionClaim: "scope",
-				Mode: ModeResourceServer, JWKSCacheTTL: time.Hour}
+				Mode: ModeResourceServer, JWKSCacheTTL: jwksTTL}
 			jwksURL = "http://idp.test/.well-known/jwks.json"
 			globalConfigMu.Unlock()
 
@@ -347,6 +365,8 @@ func TestVerifC22(t *testing.T) {
 					synctest.Wait()
 				case "X":
 					caches.Delete(caches.OAuthJWTCache, strs[int(op[1].(float64))])
+				case "K":
+					rt.body = c22Doc(keys, h.Docs[int(op[1].(float64))])
 				case "P":
 					caches.PurgeLocal(caches.OAuthJWTCache)
 
